@@ -29,6 +29,8 @@ pub fn name_of(code: u64) -> Vec<u8> {
         4 => vec![b'y'; fnmax() + 1],
         5 => b"c".to_vec(),
         6 => "h\u{e9}\u{4e16}".as_bytes().to_vec(),
+        // at most fnmax CHARACTERS but more than fnmax BYTES
+        7 => "\u{e9}".repeat(fnmax() / 2 + 1).into_bytes(),
         n => format!("f{n}").into_bytes(),
     }
 }
@@ -287,7 +289,7 @@ fn run_calls_indexed(calls: &[Vec<u64>], idx: &[usize]) -> RunOut {
 
 pub fn alphabet() -> Vec<Vec<u64>> {
     let mut a: Vec<Vec<u64>> = Vec::new();
-    for n in 0..5 {
+    for n in [0u64, 1, 2, 3, 4, 7] {
         a.push(vec![0, n]);
     }
     for id in [0u64, 1, 99] {
